@@ -37,7 +37,7 @@ Definition ul_store (l : uparams) (v : uriparam) : uparams :=
   if ul_is_tmp l then l <| ul_tmp := v |>
   else l <| ul_params := set_nth (N.to_nat (ul_n l)) v (ul_params l) |>.
 
-Definition ul_iter (flags0 : N) (pre rest : list byte) (i : N) (l : uparams) : ires uparams :=
+Definition ul_iter1 (flags0 : N) (pre rest : list byte) (i : N) (l : uparams) : ires uparams :=
   let flags := N.lor flags0 (2 ^ bPOptParamSemiSep) in
   let p := ul_slot l in
   match run (tp_iter flags) pre rest i 0 (up_param p) with
@@ -62,6 +62,14 @@ Definition ul_iter (flags0 : N) (pre rest : list byte) (i : N) (l : uparams) : i
     end
   | _ => IPanic
   end.
+(* ParseTokenParam can return more-values without advancing (a resumed call
+   that finds the next parameter's first byte): the Go loop then calls it
+   again at the same offset, now in the next-value state *)
+Definition ul_iter (flags0 : N) (pre rest : list byte) (i : N) (l : uparams) : ires uparams :=
+  match ul_iter1 flags0 pre rest i l with
+  | Next O l' => ul_iter1 flags0 pre rest i l'
+  | r => r
+  end.
 Definition parse_all_uri_params (flags : N) (buf : list byte) (offs : N) (l : uparams) : res uparams :=
   parse (ul_iter flags) buf offs (l <| ul_vno := 0 |>).
 
@@ -85,7 +93,7 @@ Definition uh_store (l : uhdrs) (v : tokparam) : uhdrs :=
   if uh_is_tmp l then l <| uh_tmp := v |>
   else l <| uh_hdrs := set_nth (N.to_nat (uh_n l)) v (uh_hdrs l) |>.
 
-Definition uh_iter (flags0 : N) (pre rest : list byte) (i : N) (l : uhdrs) : ires uhdrs :=
+Definition uh_iter1 (flags0 : N) (pre rest : list byte) (i : N) (l : uhdrs) : ires uhdrs :=
   let flags := N.lor flags0 (N.lor (2 ^ bPOptParamAmpSep) (2 ^ bPOptTokURIHdr)) in
   match run (tp_iter flags) pre rest i 0 (uh_slot l) with
   | Done next e tp =>
@@ -103,6 +111,11 @@ Definition uh_iter (flags0 : N) (pre rest : list byte) (i : N) (l : uhdrs) : ire
     | _ => Ret next e (uh_store l tokparam0)
     end
   | _ => IPanic
+  end.
+Definition uh_iter (flags0 : N) (pre rest : list byte) (i : N) (l : uhdrs) : ires uhdrs :=
+  match uh_iter1 flags0 pre rest i l with
+  | Next O l' => uh_iter1 flags0 pre rest i l'
+  | r => r
   end.
 Definition parse_all_uri_hdrs (flags : N) (buf : list byte) (offs : N) (l : uhdrs) : res uhdrs :=
   parse (uh_iter flags) buf offs (l <| uh_vno := 0 |>).
